@@ -34,6 +34,7 @@ type Hist struct {
 	goneNames        []string      // names of nodes that left the cluster (may be handed out again)
 	scanInterval     time.Duration // controller option: period of RunForever\'s ticker
 	scripted         bool          // a corpus scenario: no random extras beyond what the script says
+	big              bool          // this history's first group is large (hundreds of nodes)
 	mock             clock.Mock
 	api              []*WNode // API truth, in creation order
 	listed           []*WNode // what the node lister returns (may be stale), in lister order
